@@ -1149,7 +1149,11 @@ class Unit(metaclass=_Interned):
             >>> assert Unit.parse('m^2/s') == Unit.parse('m²⋅s⁻¹')
             >>> assert Unit.parse('m^2*s') == Unit.parse('m²⋅s')
         """
-        return cast(Unit, parser.parse(string, start="unit"))
+        try:
+            return cast(Unit, parser.parse(string, start="unit"))
+        except (OverflowError, ValueError) as error:
+            # a number in the text is too large to work with
+            raise ParseError(str(error)) from error
 
     @classmethod
     def _simplify(cls, factors: Mapping["Unit", int]) -> Dict["Unit", int]:
@@ -1484,7 +1488,11 @@ class Quantity:
             >>> assert Quantity.parse('2 m^2/s') == Quantity.parse('2 m²⋅s⁻¹')
             >>> assert Quantity.parse('2 m^2*s') == Quantity.parse('2 m²⋅s')
         """
-        return cast(Quantity, parser.parse(string, start="quantity"))
+        try:
+            return cast(Quantity, parser.parse(string, start="quantity"))
+        except (OverflowError, ValueError) as error:
+            # a number in the text is too large to work with
+            raise ParseError(str(error)) from error
 
     def __hash__(self) -> int:
         return hash((self.magnitude, self.unit))
@@ -2282,7 +2290,7 @@ One = Number.unit(name="one", symbol="1")
 
 
 from . import conversions  # noqa: E402
-from .parsing import parser  # noqa: E402
+from .parsing import ParseError, parser  # noqa: E402
 
 One.equals(1 * One)
 
